@@ -424,7 +424,8 @@ def mutate(rng, md):
         if ints:
             p = rng.choice(ints)
             v = get_at(md, p)
-            nv = rng.choice([-v, v + 1, v - 1, v * 2 ** 60, 0, float(v), v + 0.5, -v - 1, v + 16384, 10 ** 400 if rng.random() < 0.3 else v * 3, 10 ** 5000 if rng.random() < 0.1 else 2 ** 53 + 1])
+            fv = float(v) if abs(v) < 2 ** 1000 else v        # float() of a huge int raises OverflowError
+            nv = rng.choice([-v, v + 1, v - 1, v * 2 ** 60, 0, fv, (v + 0.5) if abs(v) < 2 ** 1000 else v, -v - 1, v + 16384, 10 ** 400 if rng.random() < 0.3 else v * 3, 10 ** 5000 if rng.random() < 0.1 else 2 ** 53 + 1])
             return set_at(md, p, nv), 'int %r -> %s' % (p, ('%r' % nv)[:20] if not isinstance(nv, int) or abs(nv) < 10 ** 30 else 'huge int')
     if r < 0.68 and info is not None:
         if 'files' in info and isinstance(info['files'], list) and len(info['files']) >= 2 and all(isinstance(f, dict) and isinstance(f.get('length'), int) for f in info['files']):
@@ -522,3 +523,40 @@ def safe_repr(v):
 
 def eval_repr(s):
     return eval(s, {'datetime': datetime, 'float': float, 'int': int, 'object': object, 'set': set, 'frozenset': frozenset, 'bytearray': bytearray})  # noqa
+
+
+def url_model_gap(md):
+    """True if the metainfo holds an announce URL on which the model's URL test (a parameter of the theorems,
+    modelled-not-verified) and torf's is_url disagree: such a case is outside the model."""
+    import torf._utils as tu
+    from common import Model
+    cands = []
+
+    def key(d, k):
+        if not isinstance(d, dict):
+            return None
+        return d.get(k, d.get(k.encode() if isinstance(k, str) else k))
+    a = key(md, 'announce')
+    if isinstance(a, (str, bytes, bytearray)):
+        cands.append(a)
+    al = key(md, 'announce-list')
+    if isinstance(al, (list, tuple)):
+        for tier in al:
+            if isinstance(tier, (list, tuple)):
+                cands += [u for u in tier if isinstance(u, (str, bytes, bytearray))]
+    m = Model()
+    pend = []
+    for u in cands[:50]:
+        try:
+            s_ = u if isinstance(u, str) else bytes(u).decode('utf-8')
+        except UnicodeDecodeError:
+            continue
+        try:
+            real = tu.is_url(s_)
+        except Exception:  # noqa
+            real = None
+        pend.append((real, m.add(['meta.is_url', s_.encode('utf-8')])))
+    if not pend:
+        return False
+    out = m.run()
+    return any(real is not None and (out[i] == 't') != real for real, i in pend)
